@@ -224,11 +224,16 @@ type Violation struct {
 	Op      int      `json:"o"`
 	Kind    string   `json:"kind"`   // culprit operation kind
 	Object  string   `json:"object"` // e.g. module#1
+	ObjID   int      `json:"obj_id"` // module object id (I-MUT)
 	Paths   []string `json:"paths,omitempty"`
 	Detail  string   `json:"detail,omitempty"`
 	AtStep  uint64   `json:"at_step"`
 	MidOp   bool     `json:"mid_op,omitempty"`   // seen while the culprit operation was still running
 	Healed  bool     `json:"healed,omitempty"`   // the object was back to its baseline at a later check
+	// Suspects: every (task, op) that ran since the previous clean check.
+	// Exactly one => Task/Op/Kind are the culprit; more => Kind is "ambiguous"
+	// and the driver re-runs the recorded schedule with a check after every slice.
+	Suspects []Ref `json:"suspects,omitempty"`
 }
 
 // Stats are measured, per run.
@@ -257,6 +262,10 @@ type Result struct {
 	LogHash    string      `json:"log_hash"`
 	Fatal      string      `json:"fatal,omitempty"` // worker-level trouble (tooling), not a verdict
 	Deadlock   bool        `json:"deadlock,omitempty"`
+	// GlobalsDirty: package-level state of the compiler differs from what it
+	// was at process start. Retire: a serving worker exits after this result.
+	GlobalsDirty bool `json:"globals_dirty,omitempty"`
+	Retire       bool `json:"retire,omitempty"`
 }
 
 // Describe mode ---------------------------------------------------------
